@@ -5,6 +5,7 @@ CONSTANTS
  Honest <- H4
  FixF3 = TRUE
  FixF4 = TRUE
+ FixF15 = TRUE
  Prog <- P_one4
  UseDFrom <- None
  DFromWho <- AllParties
